@@ -20,6 +20,11 @@ import (
 type Case struct {
 	Err  *script.ErrSpec `json:"err"`  // nil = ErrorCode(writer, nil)
 	Path string          `json:"path"` // direct | parse | stmt | xparse | xexec
+	// Inner > 0: after the full error was built (and reported), the error as it
+	// was after Inner-1... i.e. the shared inner value with only the first
+	// Inner-1 layers, is reported as well: decorating an error must not change
+	// what the error it wraps reports.
+	Inner int `json:"inner,omitempty"`
 }
 
 var quiet = slog.New(slog.NewTextHandler(io.Discard, &slog.HandlerOptions{Level: slog.Level(100)}))
@@ -63,12 +68,14 @@ func labels(c Case) (ls []string, nontrivial bool) {
 }
 
 // obtain delivers the error and returns the server messages of that cycle.
-func obtain(c Case) ([]pgwire.BMsg, string) {
+func obtain(c Case, prebuilt error) ([]pgwire.BMsg, string) {
 	if c.Path == "direct" {
 		var sink bytes.Buffer
 		w := buffer.NewWriter(quiet, &sink)
 		var err error
-		if c.Err != nil {
+		if prebuilt != nil {
+			err = prebuilt
+		} else if c.Err != nil {
 			err = c.Err.Build()
 		}
 		if werr := wire.ErrorCode(w, err); werr != nil {
@@ -114,9 +121,35 @@ func obtain(c Case) ([]pgwire.BMsg, string) {
 }
 
 func Run(c Case) core.Result {
+	res := runOne(c, nil)
+	if res.Violation != "" || c.Err == nil || c.Inner <= 0 || c.Path != "direct" {
+		return res
+	}
+	k := c.Inner - 1
+	if k > len(c.Err.Layers) {
+		k = len(c.Err.Layers)
+	}
+	// build the whole chain first, report the outermost, then report the shared inner value
+	all := c.Err.BuildAll()
+	var sink bytes.Buffer
+	_ = wire.ErrorCode(buffer.NewWriter(quiet, &sink), all[len(all)-1])
+	inner := Case{Err: &script.ErrSpec{Base: c.Err.Base, Layers: c.Err.Layers[:k]}, Path: "direct"}
+	r2 := runOne(inner, all[k])
+	if r2.Violation != "" {
+		r2.Sig = "C17/inner-value-changed/" + r2.Sig
+		r2.Violation = fmt.Sprintf("after %d further decoration(s) were applied on top of it, the error with the first %d layer(s) no longer reports its own decorations: %s", len(c.Err.Layers)-k, k, r2.Violation)
+		r2.Labels, r2.NonTrivial = res.Labels, res.NonTrivial
+		return r2
+	}
+	res.Labels = append(res.Labels, "inner-value-rechecked")
+	return res
+}
+
+// runOne reports one error; prebuilt (when non-nil) is used instead of building c.Err afresh.
+func runOne(c Case, prebuilt error) core.Result {
 	ls, nt := labels(c)
 	res := core.Result{Labels: ls, NonTrivial: nt}
-	msgs, problem := obtain(c)
+	msgs, problem := obtain(c, prebuilt)
 	if problem != "" {
 		res.Sig, res.Violation = "C17/"+c.Path+"/malformed-or-missing", problem
 		return res
